@@ -257,7 +257,7 @@ fn random_arc(ctx: &mut Ctx, index: u64, r: &mut Rng, bufs: &mut CurveBuffers) {
         2 => {
             // huge radius: almost straight, must fall back to a Bezier when the arc would need >= 1000 points
             let len = 2000.0 + r.f() * 2000.0;
-            let sag = [0.001, 0.01, 0.5, 5.0][r.below(4)];
+            let sag = if r.chance(1, 2) { [0.001, 0.01, 0.5, 5.0, 1.0, 2.0][r.below(6)] } else { 0.3 + 2.7 * r.f() };
             b = (f32r(len / 2.0), f32r(sag));
             c = (f32r(len), 0.0);
         }
@@ -326,7 +326,9 @@ fn arc_case(ctx: &mut Ctx, index: u64, a: P, b: P, c: P, bufs: &mut CurveBuffers
         let s_ny = (a2 * (c.0 - b.0)).abs() + (b2 * (a.0 - c.0)).abs() + (c2 * (b.0 - a.0)).abs();
         let cmax = ctr.0.abs().max(ctr.1.abs());
         let cond = 32.0 * eps32 * (s_nx.max(s_ny) / d.abs() + cmax * s_d / d.abs()) + ulp32(rad + m) * 8.0;
-        if nexp > 1015.0 || rad > 1e6 {
+        // beyond a radius of about 3.3e6 px the single-precision term 1 - 0.1/r is exactly 1 (the step angle
+        // vanishes): the legacy code draws such "enormous" arcs as a chord or a Bezier, both accepted here
+        if nexp > 1015.0 || rad >= 3.3e6 {
             if bezier_like() {
                 ctx.count("arc_enormous_fallback");
                 judged = true;
@@ -337,9 +339,38 @@ fn arc_case(ctx: &mut Ctx, index: u64, a: P, b: P, c: P, bufs: &mut CurveBuffers
             }
             return;
         }
-        if nexp >= 985.0 || cond > 0.05 {
-            // only structural checks
+        if nexp >= 985.0 {
+            // only structural checks: within the noise of the sub-point count either rendering is acceptable
             ctx.count("arc_ill_conditioned");
+            return;
+        }
+        if cond > 0.05 && m > 8192.0 {
+            // outside the coordinate range the property speaks about: structural checks only
+            ctx.count("arc_ill_conditioned");
+            return;
+        }
+        if cond > 0.05 {
+            // The circumcentre is poorly determined in single precision (long shallow arcs, large coordinates), so
+            // "every vertex on the circle" cannot be demanded. The *shape* still can: a centre error d along the
+            // axis moves the arc by at most d (1 - cos(range/2)), which is tiny exactly where this happens.
+            let exact: Vec<P> = (0..=720).map(|i| {
+                let th = ts + dir * range * f64::from(i) / 720.0;
+                (ctr.0 + rad * th.cos(), ctr.1 + rad * th.sin())
+            }).collect();
+            // for radii of millions of px the single-precision term 1 - 0.1/r is quantised in steps of 2^-24, which
+            // acts like a flattening tolerance of up to 0.1 + r 2^-24 px; the sub-point count follows from that
+            let tol_eff = 0.1 + rad * 2f64.powi(-24);
+            let n_eff = (range / (2.0 * (1.0 - tol_eff / rad).acos())).ceil().max(2.0);
+            let nn = n_eff.min(nexp).max(2.0);
+            let slack = 0.05 + 64.0 * ulp32(m) + 2.0 * cond * (1.0 - (range / 2.0).cos()).min(1.0);
+            let bound = 1.5 * tol_eff * (nn / (nn - 1.0)).powi(2) + slack;
+            let dev = directed(&exact, &path, bound).max(directed(&path, &exact, bound));
+            ctx.count("arcs_judged_by_shape");
+            ctx.maxf("arc_shape_worst_over_bound", dev / bound);
+            judged = true;
+            if dev > bound {
+                ctx.violation("arc_deviation", format!("the path ({} points) is {dev:.4} px from the exact arc (bound {bound:.4}); radius {rad:.1}, expected about {nexp} points, centre conditioning {cond:.3}", path.len()), index, w.as_bytes());
+            }
             return;
         }
         // must be an arc
